@@ -81,7 +81,10 @@ func runC19(rc *RunCtx) {
 			if need := 2*totalGap(n.Chunks) + 50*time.Millisecond; sc.ReadTimeout < need {
 				n.Chunks = []Chunk{{N: len(n.Reply)}}
 			}
-			n.Reconnect = 1 + t.Choose(2)
+			n.Reconnect = []int{1, 2, 0, 0}[t.Choose(4)]
+			if t.Chance(1, 2) {
+				n.IdleBefore = time.Duration(300+t.Choose(3000)) * time.Millisecond // the client sits idle for a while first
+			}
 			n.Then = nil
 			sc.Then = n
 		}
@@ -104,6 +107,18 @@ func runC19(rc *RunCtx) {
 	for n := sc.Then; n != nil; n = n.Then {
 		n.DeadlinePort = sc.DeadlinePort
 	}
+	var hist []*C1
+	if sc.Then == nil && (sc.Fault == FNone || sc.Fault == FStall || sc.Fault == FEOF || sc.Fault == FIOErr || sc.Fault == FOversize) && t.Chance(1, 120) {
+		// the exchange under test comes after a long history of exchanges on the same hooked client; every one of them
+		// is held to the same obligations
+		hist = genHistoryFrag(rc, sc, historyLen(t), false, true)
+		rc.longRun = true
+		defer func() { rc.longRun = false }()
+	}
+	mainSc := sc
+	if len(hist) > 0 {
+		sc = chainCalls(append(append([]*C1(nil), hist...), mainSc))
+	}
 	a := len(rc.Sched.Rec)
 	withHooks := RunC1(rc, sc)
 	hashA, fpA, stepsA, simA, traceA := rc.Hash, rc.FP, rc.Steps, rc.SimTime, rc.Trace
@@ -111,11 +126,15 @@ func runC19(rc *RunCtx) {
 	twin := *sc
 	twin.Hooks = false
 	twin.NilHooksOption = nilOpt
-	rc2 := &RunCtx{Prop: rc.Prop, Tier: rc.Tier, Scen: rc.Scen, Sched: ReplayTape(append([]int32(nil), rc.Sched.Rec[a:]...)), Tracing: false}
+	rc2 := &RunCtx{Prop: rc.Prop, Tier: rc.Tier, Scen: rc.Scen, Sched: ReplayTape(append([]int32(nil), rc.Sched.Rec[a:]...)), Tracing: false, longRun: rc.longRun}
 	without := RunC1(rc2, &twin)
 	rc.Hash, rc.FP, rc.Steps, rc.SimTime, rc.Trace = hashA^(rc2.Hash*31), fpA, stepsA+rc2.Steps, simA+rc2.SimTime, traceA
-	rc.Desc = sc.describe()
+	rc.Desc = mainSc.describe()
 	rc.Desc["flavour"] = []string{"fragmentation", "fault"}[flavour]
+	if len(hist) > 0 {
+		rc.Desc["exchanges_before_on_this_client"] = len(hist)
+		rc.Fault("long_history_before_the_call", len(withHooks.Next) == len(hist))
+	}
 	nreads := 0
 	for _, r := range withHooks.Rec {
 		if r.Kind == "read" {
